@@ -102,3 +102,32 @@ Example C10_compose_example_limit :
              "strict" [] [("k1", "v1")] in
   o_res (verify_registry c) = RExceeded.
 Proof. reflexivity. Qed.
+
+(* ---------- skip, with "the applicable level is skip" read off the statement ---------- *)
+
+(* the statement's level (after override validation, C01's get_level) is the skip level:
+   Verify makes the one SkipVerify call, returns the zero descriptor and the skip outcome, and
+   calls nothing on the repository — whatever the reference (even a mismatching digest), the
+   resolved descriptor, the listing, the limit (> 0) *)
+Theorem C10_registry_skip : forall c l,
+  C01_Model.get_level (ci_level c) (ci_override c) = Some l -> C01_Model.is_skip l = true ->
+  (0 < ci_max c)%Z ->
+  verify_registry c = mk_obs ROk DZero OSkip [ES] true /\
+  repo_calls (o_log (verify_registry c)) = [].
+Proof. exact registry_skip. Qed.
+Print Assumptions C10_registry_skip.
+
+(* and the skip outcome is returned only then *)
+Theorem C10_registry_skip_only : forall c,
+  o_outs (verify_registry c) = OSkip ->
+  exists l, C01_Model.get_level (ci_level c) (ci_override c) = Some l /\ C01_Model.is_skip l = true.
+Proof. exact registry_skip_only. Qed.
+Print Assumptions C10_registry_skip_only.
+
+(* level "skip", a digest reference the repository would resolve elsewhere, an unfetchable listing *)
+Example C10_compose_example_skip :
+  let res := C01_Model.mk_t "application/vnd.oci.image.manifest.v1+json" "sha256:bb" 528 [] in
+  let c := mk_cin 1 (CDigest "sha256:aa") false res [[Unfetchable]] false "skip" [] [("k1", "v1")] in
+  (exists l, C01_Model.get_level (ci_level c) (ci_override c) = Some l /\ C01_Model.is_skip l = true) /\
+  verify_registry c = mk_obs ROk DZero OSkip [ES] true.
+Proof. cbv zeta. split; [eexists; split; reflexivity | reflexivity]. Qed.
